@@ -868,6 +868,12 @@ def eval_dataset(case):
         geo_on = mode in ("geo", "both") and case["geo"].get("affine_p", 0) > 0
         res.n_evals = 0
         any_judged_spread = False
+        if case["torch_seed"] % 2 == 1:
+            # judge the SECOND access of every index (what epoch >= 2 sees): cached tensors must not drift
+            for j in range(len(units) * n_planes):
+                if runner.guarded(res, f"dataset:{kind}:getitem", ds.__getitem__, j) is runner.FAILED:
+                    return res
+            res.cls("second-access")
         for ui, (fi, insts) in enumerate(units):
             samples = []
             for p in range(n_planes):
